@@ -542,6 +542,9 @@ def big_join_scenario(args):
         log_off = 0
         n3.start(wait=True, timeout=40)
         t_join = time.time()
+        # one more rewriter talks to the JOINING node itself (it forwards to the leader and keeps a provisional value)
+        rw.append(threading.Thread(target=publish_range, args=(n3.http_port, [rnd.randrange(K) for _ in range(100000)], "j", "z" * 64, stop), daemon=True))
+        rw[-1].start()
         installs = 0
         while time.time() - t_join < B:
             try:
@@ -586,7 +589,16 @@ def big_join_scenario(args):
             if not diff or time.time() > deadline:
                 break
             time.sleep(1.0)
-        res["steps"].append({"step": "compared", "keys": K, "different": len(diff), "leader_metrics": n1.metrics(), "follower_metrics": n3.metrics()})
+        def total(nd):
+            r = nd.get("/nacos/v1/cs/configs", params={"search": "accurate", "dataId": "", "group": "", "tenant": "", "pageNo": 1, "pageSize": 1}, timeout=10)
+            j = r.json() or {}
+            return j.get("totalCount")
+        lt, ft = total(n1), total(n3)
+        res["steps"].append({"step": "compared", "keys": K, "different": len(diff), "listing_total_leader": lt, "listing_total_follower": ft, "leader_metrics": n1.metrics(), "follower_metrics": n3.metrics()})
+        if not diff and lt is not None and lt != ft:
+            res["violations"].append(("join/data-differs-after-snapshot-install/configs",
+                                      {"scenario": name, "variant": "big snapshot, keys rewritten through the joining node during the install", "what": "listing total differs although every key reads the same",
+                                       "listing_total_leader": lt, "listing_total_follower": ft, "keys": K}))
         if diff:
             i = diff[0]
             res["violations"].append(("join/data-differs-after-snapshot-install/configs",
